@@ -68,6 +68,16 @@ def mk_pos(vals):
   return c
 
 
+def mk_seq(vals):
+  c = fdl.Config(N.node_seq)
+  v0, k = vals
+  if v0 is not shapes.UNSET:
+    c[fdl.VARARGS:] = [v0]
+  if k is not shapes.UNSET:
+    c.k = k
+  return c
+
+
 def mk_kw(vals):
   kw = {n: v for n, v in zip(('x', 'extra'), vals) if v is not shapes.UNSET}
   return fdl.Config(N.node_kw, **kw)
@@ -81,6 +91,8 @@ def kinds():
       'cnd': K('cnd', 2, True, mk(fdl.Config, N.node_nd), True),
       'cpos': K('cpos', 2, True, mk_pos, True),
       'ckw': K('ckw', 2, True, mk_kw, True),
+      'cseq': K('cseq', 2, True, mk_seq, True),
+      'cni': K('cni', 2, True, mk(fdl.Config, N.NewInit), True),
       'par': K('par', 2, True, mk(fdl.Partial, N.node), True),
       'tv': K('tv', 1, True, lambda v: (N.TagB.new() if v[0] is shapes.UNSET
                                         else N.TagB.new(v[0])), True),
@@ -89,8 +101,9 @@ def kinds():
   }
 
 
-FULL = ['cfg', 'ctag', 'cnd', 'cpos', 'ckw', 'par', 'tv', 'list2', 'dict1']
-ROOTS = ['cfg', 'ctag', 'cnd', 'cpos', 'ckw', 'par']
+FULL = ['cfg', 'ctag', 'cnd', 'cpos', 'ckw', 'cseq', 'par', 'tv', 'list2',
+        'dict1']
+ROOTS = ['cfg', 'ctag', 'cnd', 'cpos', 'ckw', 'cseq', 'par']
 NCHUNK = 48
 
 
@@ -110,8 +123,10 @@ def run_construct(res):
   Tag.new(v), Tag.new()} per argument x keyword / positional passing x
   Config / Partial x callables with and without annotation tags. The
   argument's tags are the annotation's plus the TaggedValue's."""
+  annotation = {'node_tagged': {'x': {N.TagA}}, 'NewInit': {'x': {N.TagA}}}
   fns = {'node': (N.node, ['x', 'y']), 'node_tagged': (N.node_tagged,
                                                       ['x', 'y']),
+         'NewInit': (N.NewInit, ['x', 'y']),
          'node_kw': (N.node_kw, ['x', 'extra']),
          'node_pos': (N.node_pos, [0, 'a'])}
   options = [('absent',), ('plain',)] + [
@@ -151,6 +166,14 @@ def run_construct(res):
                           f'{case}: {type(e).__name__}: {e}', case)
             continue
           twin = cls(fn)
+          got_ann = {k: set(v) for k, v in twin.__argument_tags__.items()
+                     if v}
+          if got_ann != annotation.get(fname, {}):
+            res.violation(
+                f'C14/annotation-tags-not-attached/{fname}',
+                f'{case}: {cname}({fname}) starts with tags {got_ann}, the '
+                f'annotations say {annotation.get(fname, {})}', case)
+            continue
           for i, (key, o) in enumerate(zip(keys, (o0, o1))):
             if o[0] == 'plain':
               twin.__arguments__[key] = f'P{i}'
@@ -193,6 +216,8 @@ def arg_keys(b):
     return [0, 'a']
   if fn is N.node_kw:
     return ['x', 'extra']
+  if fn is N.node_seq:
+    return [0, 'k']
   return ['x', 'y']
 
 
